@@ -161,6 +161,254 @@ pub mod libc {
     }
 }
 
+/// The slice of `std::fs` (+ `std::os::unix::fs::FileExt`) through which code can reach the
+/// address space behind the back of mmap/mprotect: `/proc/self/maps` shows the simulated address
+/// space, `/proc/self/mem` reads and writes it; every other path is the real file system.
+pub mod fs {
+    use crate::world::with_world;
+    use std::io::{self, Read, Seek, SeekFrom, Write};
+    use std::path::Path;
+    pub use std::fs::{create_dir, create_dir_all, metadata, read_dir, remove_file, DirEntry, Metadata};
+
+    enum Kind {
+        Real(std::fs::File),
+        Maps(io::Cursor<Vec<u8>>),
+        Mem { pos: u64, writable: bool },
+    }
+    pub struct File {
+        kind: Kind,
+    }
+
+    fn special(p: &Path) -> Option<&'static str> {
+        match p.to_str() {
+            Some("/proc/self/maps") => Some("maps"),
+            Some("/proc/self/mem") => Some("mem"),
+            _ => None,
+        }
+    }
+
+    impl File {
+        pub fn open<P: AsRef<Path>>(p: P) -> io::Result<File> {
+            match special(p.as_ref()) {
+                Some("maps") => Ok(File { kind: Kind::Maps(io::Cursor::new(with_world(|w| w.proc_maps()).into_bytes())) }),
+                Some(_) => Ok(File { kind: Kind::Mem { pos: 0, writable: false } }),
+                None => std::fs::File::open(p).map(|f| File { kind: Kind::Real(f) }),
+            }
+        }
+        pub fn create<P: AsRef<Path>>(p: P) -> io::Result<File> {
+            std::fs::File::create(p).map(|f| File { kind: Kind::Real(f) })
+        }
+        pub fn options() -> OpenOptions {
+            OpenOptions::new()
+        }
+    }
+
+    #[derive(Clone, Debug)]
+    pub struct OpenOptions {
+        inner: std::fs::OpenOptions,
+        write: bool,
+    }
+    impl Default for OpenOptions {
+        fn default() -> Self {
+            Self::new()
+        }
+    }
+    impl OpenOptions {
+        pub fn new() -> Self {
+            OpenOptions { inner: std::fs::OpenOptions::new(), write: false }
+        }
+        pub fn read(&mut self, v: bool) -> &mut Self {
+            self.inner.read(v);
+            self
+        }
+        pub fn write(&mut self, v: bool) -> &mut Self {
+            self.inner.write(v);
+            self.write = v;
+            self
+        }
+        pub fn append(&mut self, v: bool) -> &mut Self {
+            self.inner.append(v);
+            self
+        }
+        pub fn truncate(&mut self, v: bool) -> &mut Self {
+            self.inner.truncate(v);
+            self
+        }
+        pub fn create(&mut self, v: bool) -> &mut Self {
+            self.inner.create(v);
+            self
+        }
+        pub fn open<P: AsRef<Path>>(&self, p: P) -> io::Result<File> {
+            match special(p.as_ref()) {
+                Some("maps") => File::open(p),
+                Some(_) => Ok(File { kind: Kind::Mem { pos: 0, writable: self.write } }),
+                None => self.inner.open(p).map(|f| File { kind: Kind::Real(f) }),
+            }
+        }
+    }
+
+    fn mem_read(off: u64, buf: &mut [u8]) -> io::Result<usize> {
+        // as far as the bytes are mapped (protections ignored, like the kernel's access_remote_vm)
+        let mut n = 0;
+        with_world(|w| {
+            for (i, b) in buf.iter_mut().enumerate() {
+                match w.region_at(off + i as u64) {
+                    Some(_) => match w.peek(off + i as u64, 1).map(|v| v[0]) {
+                        Some(v) => {
+                            *b = v;
+                            n += 1;
+                        }
+                        None => break,
+                    },
+                    None => break,
+                }
+            }
+        });
+        if n == 0 && !buf.is_empty() {
+            Err(io::Error::from_raw_os_error(5))
+        } else {
+            Ok(n)
+        }
+    }
+    fn mem_write(off: u64, buf: &[u8]) -> io::Result<usize> {
+        let n = with_world(|w| w.mem_write_forced(off, buf));
+        if n == 0 && !buf.is_empty() {
+            Err(io::Error::from_raw_os_error(5)) // EIO
+        } else {
+            Ok(n)
+        }
+    }
+
+    impl Read for File {
+        fn read(&mut self, buf: &mut [u8]) -> io::Result<usize> {
+            match &mut self.kind {
+                Kind::Real(f) => f.read(buf),
+                Kind::Maps(c) => c.read(buf),
+                Kind::Mem { pos, .. } => {
+                    let n = mem_read(*pos, buf)?;
+                    *pos += n as u64;
+                    Ok(n)
+                }
+            }
+        }
+    }
+    impl Write for File {
+        fn write(&mut self, buf: &[u8]) -> io::Result<usize> {
+            match &mut self.kind {
+                Kind::Real(f) => f.write(buf),
+                Kind::Maps(_) => Err(io::Error::from_raw_os_error(9)),
+                Kind::Mem { pos, writable } => {
+                    if !*writable {
+                        return Err(io::Error::from_raw_os_error(9)); // EBADF
+                    }
+                    let n = mem_write(*pos, buf)?;
+                    *pos += n as u64;
+                    Ok(n)
+                }
+            }
+        }
+        fn flush(&mut self) -> io::Result<()> {
+            match &mut self.kind {
+                Kind::Real(f) => f.flush(),
+                _ => Ok(()),
+            }
+        }
+    }
+    impl Seek for File {
+        fn seek(&mut self, to: SeekFrom) -> io::Result<u64> {
+            match &mut self.kind {
+                Kind::Real(f) => f.seek(to),
+                Kind::Maps(c) => c.seek(to),
+                Kind::Mem { pos, .. } => {
+                    *pos = match to {
+                        SeekFrom::Start(x) => x,
+                        SeekFrom::Current(d) => (*pos as i64).wrapping_add(d) as u64,
+                        SeekFrom::End(d) => (u64::MAX as i64).wrapping_add(d) as u64,
+                    };
+                    Ok(*pos)
+                }
+            }
+        }
+    }
+
+    /// `std::os::unix::fs::FileExt`
+    pub trait FileExt {
+        fn read_at(&self, buf: &mut [u8], offset: u64) -> io::Result<usize>;
+        fn write_at(&self, buf: &[u8], offset: u64) -> io::Result<usize>;
+        fn read_exact_at(&self, mut buf: &mut [u8], mut offset: u64) -> io::Result<()> {
+            while !buf.is_empty() {
+                match self.read_at(buf, offset) {
+                    Ok(0) => break,
+                    Ok(n) => {
+                        let tmp = buf;
+                        buf = &mut tmp[n..];
+                        offset += n as u64;
+                    }
+                    Err(ref e) if e.kind() == io::ErrorKind::Interrupted => {}
+                    Err(e) => return Err(e),
+                }
+            }
+            if !buf.is_empty() {
+                Err(io::Error::new(io::ErrorKind::UnexpectedEof, "failed to fill whole buffer"))
+            } else {
+                Ok(())
+            }
+        }
+        fn write_all_at(&self, mut buf: &[u8], mut offset: u64) -> io::Result<()> {
+            while !buf.is_empty() {
+                match self.write_at(buf, offset) {
+                    Ok(0) => return Err(io::Error::new(io::ErrorKind::WriteZero, "failed to write whole buffer")),
+                    Ok(n) => {
+                        buf = &buf[n..];
+                        offset += n as u64
+                    }
+                    Err(ref e) if e.kind() == io::ErrorKind::Interrupted => {}
+                    Err(e) => return Err(e),
+                }
+            }
+            Ok(())
+        }
+    }
+    impl FileExt for File {
+        fn read_at(&self, buf: &mut [u8], offset: u64) -> io::Result<usize> {
+            match &self.kind {
+                Kind::Real(f) => std::os::unix::fs::FileExt::read_at(f, buf, offset),
+                Kind::Maps(c) => {
+                    let d = c.get_ref();
+                    let o = (offset as usize).min(d.len());
+                    let n = buf.len().min(d.len() - o);
+                    buf[..n].copy_from_slice(&d[o..o + n]);
+                    Ok(n)
+                }
+                Kind::Mem { .. } => mem_read(offset, buf),
+            }
+        }
+        fn write_at(&self, buf: &[u8], offset: u64) -> io::Result<usize> {
+            match &self.kind {
+                Kind::Real(f) => std::os::unix::fs::FileExt::write_at(f, buf, offset),
+                Kind::Maps(_) => Err(io::Error::from_raw_os_error(9)),
+                Kind::Mem { writable, .. } => {
+                    if !*writable {
+                        return Err(io::Error::from_raw_os_error(9));
+                    }
+                    mem_write(offset, buf)
+                }
+            }
+        }
+    }
+
+    pub fn read_to_string<P: AsRef<Path>>(p: P) -> io::Result<String> {
+        let mut s = String::new();
+        File::open(p)?.read_to_string(&mut s)?;
+        Ok(s)
+    }
+    pub fn read<P: AsRef<Path>>(p: P) -> io::Result<Vec<u8>> {
+        let mut v = Vec::new();
+        File::open(p)?.read_to_end(&mut v)?;
+        Ok(v)
+    }
+}
+
 pub mod linuxapi {
     use crate::world::with_world;
     pub unsafe fn __clear_cache(start: *mut u8, end: *mut u8) {
